@@ -526,6 +526,95 @@ NUMPY_SIGNATURES = {
 }
 
 
+def inline_partials(repo):
+    """`f = functools.partial(g, a, k=v)` (f bound once in the function) and
+    later `f(x, j=w)`  ->  `g(a, x, k=v, j=w)`; `np.add.reduce(x, axis=..)`
+    -> `np.sum(x, axis=..)`."""
+    import copy
+
+    def do(fn):
+        stores = {}
+        for x in ast.walk(fn):
+            if isinstance(x, ast.Name) and isinstance(x.ctx, ast.Store):
+                stores[x.id] = stores.get(x.id, 0) + 1
+        parts = {}
+        for a in ast.walk(fn):
+            if isinstance(a, ast.Assign) and len(a.targets) == 1 \
+                    and isinstance(a.targets[0], ast.Name) \
+                    and stores.get(a.targets[0].id) == 1 \
+                    and isinstance(a.value, ast.Call) \
+                    and ast.unparse(a.value.func) in ('functools.partial',
+                                                      'partial') \
+                    and a.value.args and not any(
+                        isinstance(x, ast.Starred) for x in a.value.args) \
+                    and not any(k.arg is None for k in a.value.keywords):
+                parts[a.targets[0].id] = a
+
+        class R(ast.NodeTransformer):
+            def visit_Call(self, n):
+                self.generic_visit(n)
+                if isinstance(n.func, ast.Name) and n.func.id in parts:
+                    p = parts[n.func.id].value
+                    kws = {k.arg for k in n.keywords}
+                    return ast.copy_location(ast.Call(
+                        func=copy.deepcopy(p.args[0]),
+                        args=[copy.deepcopy(x) for x in p.args[1:]]
+                        + n.args,
+                        keywords=[copy.deepcopy(k) for k in p.keywords
+                                  if k.arg not in kws] + n.keywords), n)
+                if isinstance(n.func, ast.Attribute) and n.func.attr == \
+                        'schedule' and (len(n.args) >= 2 or {
+                            'level', 'start'} <= {k.arg for k in
+                                                  n.keywords}):
+                    # myokit: Protocol.schedule(level, start, duration, ..)
+                    # is add(ProtocolEvent(level, start, duration, ..))
+                    ev_ = ast.Call(func=ast.Attribute(
+                        value=ast.Name(id='myokit', ctx=ast.Load()),
+                        attr='ProtocolEvent', ctx=ast.Load()),
+                        args=n.args, keywords=n.keywords)
+                    return ast.copy_location(ast.Call(
+                        func=ast.Attribute(value=n.func.value, attr='add',
+                                           ctx=ast.Load()),
+                        args=[ev_], keywords=[]), n)
+                if ast.unparse(n.func) in ('np.add.reduce',
+                                           'numpy.add.reduce'):
+                    n.func = ast.copy_location(ast.Attribute(
+                        value=ast.Name(id='np', ctx=ast.Load()), attr='sum',
+                        ctx=ast.Load()), n.func)
+                    n.keywords = [k for k in n.keywords if not (
+                        k.arg == 'axis' and isinstance(
+                            k.value, ast.Constant)
+                        and k.value.value is None)]
+                return n
+        if parts or 'add.reduce' in ast.unparse(fn) or '.schedule(' in \
+                ast.unparse(fn):
+            R().visit(fn)
+            if parts:
+                drop = set(id(a) for a in parts.values())
+
+                def prune(stmts):
+                    out = []
+                    for s_ in stmts:
+                        if id(s_) in drop:
+                            continue
+                        for attr in ('body', 'orelse', 'finalbody'):
+                            sub = getattr(s_, attr, None)
+                            if isinstance(sub, list) and sub and isinstance(
+                                    sub[0], ast.stmt):
+                                setattr(s_, attr, prune(sub) or [ast.Pass()])
+                        for h in getattr(s_, 'handlers', []) or []:
+                            h.body = prune(h.body) or [ast.Pass()]
+                        out.append(s_)
+                    return out
+                fn.body = prune(fn.body)
+            ast.fix_missing_locations(fn)
+    for c in repo.classes.values():
+        for fn in c.methods.values():
+            do(fn)
+    for fn in getattr(repo, 'functions', {}).values():
+        do(fn)
+
+
 def keywordise_numpy(repo):
     """`rng.normal(0, s, shape)` -> `rng.normal(loc=0, scale=s, size=shape)`
     for the numpy calls listed above (their signatures are fixed)."""
@@ -550,6 +639,48 @@ def keywordise_numpy(repo):
     for fn in getattr(repo, 'functions', {}).values():
         R().visit(fn)
         ast.fix_missing_locations(fn)
+
+
+def desugar_divmod(repo):
+    """`q, r = divmod(a, b)` -> `q = a // b; r = a % b` (a, b free of calls
+    other than len): the two forms are the same program."""
+    def fix(stmts):
+        out = []
+        for s in stmts:
+            for attr in ('body', 'orelse', 'finalbody'):
+                sub = getattr(s, attr, None)
+                if isinstance(sub, list) and sub and isinstance(
+                        sub[0], ast.stmt):
+                    setattr(s, attr, fix(sub))
+            for h in getattr(s, 'handlers', []) or []:
+                h.body = fix(h.body)
+            v = getattr(s, 'value', None)
+            if isinstance(s, ast.Assign) and len(s.targets) == 1 \
+                    and isinstance(s.targets[0], ast.Tuple) \
+                    and len(s.targets[0].elts) == 2 \
+                    and isinstance(v, ast.Call) \
+                    and ast.unparse(v.func) == 'divmod' \
+                    and len(v.args) == 2 and not v.keywords \
+                    and all(ast.unparse(c.func) == 'len'
+                            for a in v.args for c in ast.walk(a)
+                            if isinstance(c, ast.Call)):
+                import copy
+                for t, op in zip(s.targets[0].elts,
+                                 (ast.FloorDiv(), ast.Mod())):
+                    new = ast.Assign(targets=[t], value=ast.BinOp(
+                        left=copy.deepcopy(v.args[0]), op=op,
+                        right=copy.deepcopy(v.args[1])))
+                    ast.copy_location(new, s)
+                    ast.fix_missing_locations(new)
+                    out.append(new)
+                continue
+            out.append(s)
+        return out
+    for c in repo.classes.values():
+        for fn in c.methods.values():
+            fn.body = fix(fn.body)
+    for fn in getattr(repo, 'functions', {}).values():
+        fn.body = fix(fn.body)
 
 
 def desugar_tuple_assign(repo):
@@ -653,16 +784,37 @@ def propagate_field_aliases(repo):
                 via |= memo[m]
             subst = {}
             keep = []
+
+            def pure_test(v):
+                """a test over fields / constants only (`self._f is None`,
+                `not self._g`): same value wherever it is evaluated, as long
+                as the fields are not re-bound"""
+                if not isinstance(v, (ast.Compare, ast.BoolOp, ast.UnaryOp)):
+                    return False
+                for x in ast.walk(v):
+                    if isinstance(x, (ast.Compare, ast.BoolOp, ast.UnaryOp,
+                                      ast.Constant, ast.boolop, ast.cmpop,
+                                      ast.unaryop, ast.expr_context)):
+                        continue
+                    if isinstance(x, ast.Attribute) and isinstance(
+                            x.value, ast.Name) and x.value.id == 'self' \
+                            and x.attr not in own and x.attr not in via:
+                        continue
+                    if isinstance(x, ast.Name) and x.id == 'self':
+                        continue
+                    return False
+                return True
             for s in fn.body:
                 if isinstance(s, ast.Assign) and len(s.targets) == 1 \
                         and isinstance(s.targets[0], ast.Name) \
-                        and isinstance(s.value, ast.Attribute) \
-                        and isinstance(s.value.value, ast.Name) \
-                        and s.value.value.id == 'self' \
                         and s.targets[0].id not in params \
-                        and stores.get(s.targets[0].id) == 1 \
-                        and s.value.attr not in own \
-                        and s.value.attr not in via:
+                        and stores.get(s.targets[0].id) == 1 and ((
+                            isinstance(s.value, ast.Attribute)
+                            and isinstance(s.value.value, ast.Name)
+                            and s.value.value.id == 'self'
+                            and s.value.attr not in own
+                            and s.value.attr not in via)
+                            or pure_test(s.value)):
                     subst[s.targets[0].id] = s.value
                     continue
                 keep.append(s)
@@ -672,9 +824,9 @@ def propagate_field_aliases(repo):
             class R(ast.NodeTransformer):
                 def visit_Name(self, n):
                     if isinstance(n.ctx, ast.Load) and n.id in subst:
-                        return ast.copy_location(ast.Attribute(
-                            value=ast.Name(id='self', ctx=ast.Load()),
-                            attr=subst[n.id].attr, ctx=ast.Load()), n)
+                        import copy as _c
+                        return ast.copy_location(_c.deepcopy(subst[n.id]),
+                                                 n)
                     return n
             fn.body = [R().visit(s) for s in keep]
             ast.fix_missing_locations(fn)
@@ -691,7 +843,15 @@ def normalise(repo):
     except Exception:
         pass
     try:
+        desugar_divmod(repo)
+    except Exception:
+        pass
+    try:
         desugar_tuple_assign(repo)
+    except Exception:
+        pass
+    try:
+        inline_partials(repo)
     except Exception:
         pass
     try:
